@@ -115,6 +115,11 @@ func blockCandidates(m *ledger.Model, inst func(string) *coin.Transaction) []blo
 		o2.Body.Transactions = coin.Transactions{valid[1]}
 		add("body-replaced-header-kept", o2)
 	}
+	// two transactions of one block spending different outputs of the SAME owner (second one without change back to the owner)
+	if a, b := inst("pay-A-B"), inst("payall-A2-C"); a != nil && b != nil && m.HardInBlock(a) == "" && m.HardInBlock(b) == "" {
+		add("valid2-same-owner[pay-A-B,payall-A2-C]+10s", mkBlock(m, []coin.Transaction{*a, *b}, 10, idP.Sec, nil))
+		add("valid2-same-owner[payall-A2-C,pay-A-B]+1h", mkBlock(m, []coin.Transaction{*b, *a}, 3600, idP.Sec, nil))
+	}
 	head := m.Head().Head
 	genesisHash := m.Chain[0].Block.HashHeader()
 	type hm struct {
@@ -158,7 +163,7 @@ func blockCandidates(m *ledger.Model, inst func(string) *coin.Transaction) []blo
 		add("head-again", *m.Head())
 	}
 	// publisher-signed blocks with rule-breaking content
-	for _, name := range []string{"create-coins-G", "destroy-coins-G", "wrap-coin-sum-G", "create-hours-G", "wrap-hour-sum-G", "wrong-signer-G",
+	for _, name := range []string{"create-coins-G", "destroy-coins-G", "wrap-coin-sum-G", "wrap-coin-sum-mid-G", "wrap-coin-sum-mid4-G", "create-hours-G", "wrap-hour-sum-G", "wrap-hour-sum-mid-G", "wrap-hour-sum-max-G", "spend-legacy-overflow-creates-hours", "spend-legacy-overflow-ok", "wrong-signer-G",
 		"unsigned-G", "dup-output-G", "dup-input-G", "zero-coin-output-G", "spend-unconfirmed", "spend-spent"} {
 		t := inst(name)
 		if t == nil {
